@@ -176,7 +176,45 @@ def r3(ctx):
     ctx.floor(R, 5)
 
 
+SETTERS = {
+    "set_link_latency": ("set_link_message_latency", {"min_message_latency", "max_message_latency"}),
+    "set_link_max_message_latency": ("set_link_max_message_latency", {"max_message_latency"}),
+    "set_link_fail_rate": ("set_link_fail_rate", {"fail_rate"}),
+    "set_max_message_latency": ("set_max_message_latency", {"max_message_latency"}),
+    "set_fail_rate": ("set_fail_rate", {"fail_rate"}),
+}
+
+
+def r4(ctx):
+    R = "C14-R4"
+    ctx.rule(R, "setter wiring (sibling agreement): each Sim::set_* reaches exactly its own Topology setter among the latency / loss setters, "
+                "and each Topology setter writes exactly its own configuration fields with the value parameter")
+    topo_all = {"turmoil::top::Topology::" + v[0] for v in SETTERS.values()} | {"turmoil::top::Topology::set_message_latency_curve", "turmoil::top::Topology::set_repair_rate"}
+    for sfn, (tfn, fields) in SETTERS.items():
+        b = ctx.body(R, "turmoil::sim::Sim::" + sfn)
+        if b:
+            reach = reach_bodies(ctx.w, [b.id])
+            got = sorted(x for x in reach if x in topo_all)
+            ok = got == ["turmoil::top::Topology::" + tfn]
+            ctx.inst(R, f"Sim::{sfn}:reaches", ok, b.span, f"reaches exactly Topology::{tfn}" if ok else f"Sim::{sfn} reaches {got} instead of exactly Topology::{tfn}")
+        tb = ctx.body(R, "turmoil::top::Topology::" + tfn)
+        if tb:
+            wr = set()
+            okv = True
+            for bb, i, st in tb.all_stmts():
+                f = place_last_field(st["p"])
+                if f and f.startswith(("turmoil::config::Latency::", "turmoil::config::MessageLoss::")):
+                    wr.add(f.rsplit("::", 1)[1])
+                    at = Slicer(ctx.w).atoms(tb, st["r"].get("o", {})) if st["r"]["k"] == "use" else set()
+                    if not any(a.startswith(f"arg:{tb.argc}:") for a in at):
+                        okv = False
+            ctx.inst(R, f"Topology::{tfn}:writes", wr == fields and okv, tb.span, f"writes {sorted(fields)} := value" if wr == fields and okv else
+                     f"Topology::{tfn} writes {sorted(wr)} (expected {sorted(fields)}, from its value parameter)")
+    ctx.floor(R, 10)
+
+
 def run(ctx):
+    r4(ctx)
     r1(ctx)
     r2(ctx)
     r3(ctx)
